@@ -3,6 +3,7 @@ use crate::engine::{Ctx, DynCheck};
 pub mod c01;
 pub mod c02;
 pub mod c03;
+pub mod c04;
 pub mod c05;
 pub mod c06;
 pub mod c07;
@@ -19,13 +20,14 @@ pub mod c18;
 pub mod c19;
 pub mod c20;
 
-pub const ALL: &[&str] = &["C01", "C02", "C03", "C05", "C06", "C07", "C08", "C09", "C10", "C12", "C13", "C14", "C15", "C16", "C17", "C18", "C19", "C20"];
+pub const ALL: &[&str] = &["C01", "C02", "C03", "C04", "C05", "C06", "C07", "C08", "C09", "C10", "C12", "C13", "C14", "C15", "C16", "C17", "C18", "C19", "C20"];
 
 pub fn run(ctx: &Ctx) -> bool {
     match ctx.prop.as_str() {
         "C01" => c01::run(ctx),
         "C02" => c02::run(ctx),
         "C03" => c03::run(ctx),
+        "C04" => c04::run(ctx),
         "C05" => c05::run(ctx),
         "C06" => c06::run(ctx),
         "C07" => c07::run(ctx),
@@ -51,6 +53,7 @@ pub fn checks(id: &str) -> Vec<Box<dyn DynCheck>> {
         "C01" => c01::checks(),
         "C02" => c02::checks(),
         "C03" => c03::checks(),
+        "C04" => c04::checks(),
         "C05" => c05::checks(),
         "C06" => c06::checks(),
         "C07" => c07::checks(),
